@@ -21,7 +21,8 @@ N = EC.N
 MAGIC = b'Bitcoin Signed Message:\n'
 
 MESSAGES = ['', 'a', 'ab', 'x' * 252, 'x' * 253, 'x' * 254, 'y' * 300, 'z' * 65536, 'é', '€uro', '𝔹itcoin', 'é' * 126 + 'a', 'é' * 127, 'é' * 128,
-            'hello world', 'Hello world', 'hello world ', '\n', 'a\x00b']
+            'hello world', 'Hello world', 'hello world ', '\n', 'a\x00b',
+            'e\u0301', '\u00e9', '\u2126', '\u03a9', '\u212b', '\u1100\u1161', 'A\u030a', '\ufb01', 'fi']
 PUBKEY_ADDR = {'mainnet': 0, 'testnet': 111, 'signet': 111, 'regtest': 111}
 
 
@@ -72,7 +73,7 @@ class SignVerify(Family):
     def cases(self, shard, tier):
         for comp in (True, False):
             for mi in range(len(MESSAGES)):
-                ks = (0, 1, 2, 3, 4, 5) if (mi < 16 or tier == 'thorough') else (0, 5)
+                ks = (0, 1, 2, 3, 4, 5) if (mi < 16 or tier == 'thorough') else ((0, 5) if mi < 19 else (0,))
                 for ni in ks:
                     for ch in (('mainnet',) if ni else C.CHAINS):
                         yield (shard, comp, mi, ni, ch)
@@ -136,6 +137,25 @@ class SignVerify(Family):
                 raise Viol('VerifyMessage(%s) raised %s' % (what, type(e).__name__), False, str(e))
             if got:
                 raise Viol('VerifyMessage true for %s' % what, False, got)
+        # canonically equivalent but different texts are different messages
+        import unicodedata
+        for form in ('NFC', 'NFD', 'NFKC'):
+            t3 = unicodedata.normalize(form, text)
+            if t3 != text and VerifyMessage(own, BitcoinMessage(t3), sig64):
+                raise Viol('VerifyMessage true for a canonically equivalent but different text (%s)' % form, False, True)
+        # address texts that are not the signer's, including non-ASCII look-alikes, give False (not an exception)
+        for bad in (want_addr[:-1] + '\uff11', want_addr + '\u200b', '\u0031' + want_addr[1:-1] + '\u0430'):
+            try:
+                got = VerifyMessage(bad, msg, sig64)
+            except Exception as e:  # noqa
+                raise Viol('VerifyMessage with a non-matching non-ASCII address text raised %s' % type(e).__name__, False, str(e)[:60])
+            if got:
+                raise Viol('VerifyMessage true for a look-alike address text', False, True)
+        from bitcoin.core.key import CPubKey
+        for wrap in (bytearray, memoryview):
+            rk = CPubKey.recover_compact(want_digest, wrap(raw))
+            if rk is False or bytes(rk) != EC.encode_point(pt, comp):
+                raise Viol('recover_compact with the signature as %s' % wrap.__name__, EC.encode_point(pt, comp).hex(), rk)
         for t2 in perturbations(text):
             try:
                 got = VerifyMessage(own, BitcoinMessage(t2), sig64)
